@@ -331,6 +331,17 @@ theorem as_samples_element_sampleset_delivers (rows : List (List R)) (labels : L
     (h : asSamples (.sampleset rows labels) = .ok (rs, ls)) : Delivers (.sampleset rows labels) rs ls :=
   delivers_sampleset rows labels hnd hrect rs ls h
 
+/-- … for `(array, labels)` tuples with several rows (non-empty, rectangular, distinct labels) … -/
+theorem as_samples_element_labelled_delivers (rows : List (List R)) (labels : List Label) (hnd : labels.Nodup)
+    (hne : rows.length * widthOf rows ≠ 0) (hrect : ∀ row ∈ rows, row.length = labels.length) (rs : List (List R)) (ls : List Label)
+    (h : asSamples (.labelled rows labels) = .ok (rs, ls)) : Delivers (.labelled rows labels) rs ls :=
+  delivers_labelled rows labels hnd hne hrect rs ls h
+
+/-- … and for an element that is itself a list of dicts (a sequence containing mappings, nested once) -/
+theorem as_samples_element_dicts_delivers (l : List (List (Label × R))) (hnd : ∀ d ∈ l, (d.map (·.1)).Nodup) (rs : List (List R))
+    (ls : List Label) (h : asSamples (.dicts l) = .ok (rs, ls)) : Delivers (.dicts l) rs ls :=
+  delivers_dicts l hnd rs ls h
+
 /-- a later element with another label SET is rejected (`ValueError`), wherever it stands -/
 theorem as_samples_iterator_mismatch_rejected (F : List Label) (s : SL R) (t : List (SL R)) (rs : List (List R)) (ls : List Label)
     (hs : asSamples s = .ok (rs, ls)) (hne : ls ≠ F) (hset : sameSet ls F = false) :
